@@ -295,6 +295,20 @@ def load_known():
 
 
 # --------------------------------------------------------------------------- trace -> replay
+def double_text(val):
+    """exact hex-float text of a double from the trace (the decimal 'data' field is rounded)"""
+    b = val.get("binary")
+    if b and len(b) == 64:
+        import struct
+        x = struct.unpack(">d", int(b, 2).to_bytes(8, "big"))[0]
+        if x != x:
+            return "nan"
+        if x in (float("inf"), float("-inf")):
+            return "inf" if x > 0 else "-inf"
+        return x.hex()
+    return str(val.get("data", "0"))
+
+
 def extract_nd(trace):
     ints, dbls = {}, {}
     for step in trace:
@@ -307,8 +321,7 @@ def extract_nd(trace):
         val = step.get("value", {})
         idx = int(m.group(2))
         if m.group(1) == "d":
-            data = val.get("data", "0")
-            dbls[idx] = data
+            dbls[idx] = double_text(val)
         else:
             b = val.get("binary")
             if b is not None:
@@ -330,7 +343,7 @@ def extract_nd(trace):
             ints[i] = v
         seqd = [st for st in trace if st.get("stepType") == "assignment" and st.get("lhs") == "return_value_nondet_double"]
         for i, st in enumerate(seqd):
-            dbls[i] = st.get("value", {}).get("data", "0")
+            dbls[i] = double_text(st.get("value", {}))
     li = [ints.get(i, 0) for i in range(max(ints) + 1)] if ints else []
     ld = [dbls.get(i, "0") for i in range(max(dbls) + 1)] if dbls else []
     return li, ld
